@@ -13,6 +13,7 @@
 // the Go export must equal the documented UTF-8 mapping; (4) order of distinct values = code-unit order.
 // (5) first-touch matrix (firsttouch.go): every binary operation x {both operands never-touched imported Go strings, left
 // only, right only} as the first operation on fresh values, operand pairs aimed at UTF-8-order vs UTF-16-order traps.
+// (6) search stress (searchstress.go): long haystacks over byte-aliasing alphabets, every search operation at every position.
 // VerifRepr only records which representation pairs were exercised; VerifStringWellFormed failing only counts (the
 // canonical twin is in every battery anyway).
 package c06
